@@ -229,6 +229,7 @@ func checks() map[string]*Check {
 			{Scen: "w2.disruptrestore", Params: "snapshots=1,et=120,hb=12,lease=40,restoreus=2000000,opcap=100000", Quick: 8, Thorough: 200, Par: 8},
 			{Scen: "puppet.sticky", Quick: 8, Thorough: 200, Par: 8},
 			{Scen: "puppet.sticky", Params: "restoreus=300000", Quick: 8, Thorough: 200, Par: 8},
+			{Scen: "w2.disruptpair", Params: "et=120,hb=12,lease=40", Quick: 12, Thorough: 300, Par: 8},
 		},
 		NT: func(r *Result) bool {
 			if r.Scen == "puppet.sticky" {
@@ -241,6 +242,7 @@ func checks() map[string]*Check {
 	add(&Check{ID: "C17", Level: "exploration", Props: []string{"C17"},
 		Runs: []RunSpec{
 			{Scen: "w2.lease", Params: "et=600,hb=30,lease=100,opcap=100000", Quick: 24, Thorough: 600, Par: 8},
+			{Scen: "w2.lease", Params: "voters=5,et=600,hb=30,lease=100,opcap=100000", Quick: 16, Thorough: 400, Par: 8},
 			{Scen: "w2.deposedread", Params: "read=SR,et=600,hb=30,lease=100,opcap=2000", Quick: 8, Thorough: 200, Par: 8},
 			{Scen: "w2.freshread", Params: "read=SR,opcap=4000,applyin=300", Quick: 8, Thorough: 200, Par: 8},
 			{Scen: "w2.lingering", Params: "et=300,hb=20,lease=100,opcap=100000", Quick: 8, Thorough: 200, Par: 8},
